@@ -210,13 +210,6 @@ def upF (codes : List Int) (g : FlowGrid) (inlets : List Int) (d : Int) : List I
 def upStep (codes : List Int) (g : FlowGrid) (inlets : List Int) (d : Int) : List Int :=
   if validCell g.nrows g.ncols d = true then upF codes g inlets d else []
 
-/-- one step down the chain: defined for a valid cell that is not an inlet and drains to a cell
-(`none` for sinks, exits, invalid codes, inlets, cells off the grid) -/
-def downStep (codes : List Int) (g : FlowGrid) (inlets : List Int) (u : Int) : Option Int :=
-  if validCell g.nrows g.ncols u = true ∧ u ∉ inlets then
-    (if 0 ≤ downstreamCell codes g u then some (downstreamCell codes g u) else none)
-  else none
-
 theorem downStep_eq_some {inlets : List Int} {u d : Int} :
     downStep codes g inlets u = some d ↔
       validCell g.nrows g.ncols u = true ∧ u ∉ inlets ∧ 0 ≤ d ∧ downstreamCell codes g u = d := by
@@ -613,11 +606,6 @@ theorem areaLoop_room {o : Int} (ho : validCell g.nrows g.ncols o = true)
           rw [if_neg hc2, hlen2]; push_cast; omega
         · rw [hlen2]; push_cast; push_cast at hfuel; omega
 
-/-- `c` reaches `o` in exactly `k` steps of the downstream chain, none of the `k` cells it leaves being an
-inlet (or off the grid, a sink, an exit) -/
-def Reaches (codes : List Int) (g : FlowGrid) (inlets : List Int) (k : Nat) (c o : Int) : Prop :=
-  Bfs.walk (downStep codes g inlets) k c = some o
-
 theorem reaches_zero_iff {inlets : List Int} {c o : Int} : Reaches codes g inlets 0 c o ↔ c = o := by
   unfold Reaches; simp [Bfs.walk]
 
@@ -844,17 +832,7 @@ theorem mem_areaFilled (hc : 0 < g.ncols)
       simp only [Bool.and_eq_true, decide_eq_true_eq]
       constructor <;> omega
 
-/-! ### downstream chains -/
-
-/-- the cell `k` steps down the chain from `c` (meaningful while the chain stays on the grid) -/
-def chainCell (codes : List Int) (g : FlowGrid) : Nat → Int → Int
-  | 0, c => c
-  | k + 1, c => chainCell codes g k (downstreamCell codes g c)
-
-/-- the classification (`true` = diagonal) of the first `k` steps of the chain from `c` -/
-def chainSteps (codes : List Int) (g : FlowGrid) (diag : Int → Int → Bool) : Nat → Int → List Bool
-  | 0, _ => []
-  | k + 1, c => diag c (downstreamCell codes g c) :: chainSteps codes g diag k (downstreamCell codes g c)
+/-! ### downstream chains (`chainCell`, `chainSteps`, `chainCells`, `downStep`, `Reaches`: `Model/C06.lean`) -/
 
 theorem chainCell_succ (k : Nat) (c : Int) :
     chainCell codes g (k + 1) c = downstreamCell codes g (chainCell codes g k c) := by
@@ -1053,11 +1031,6 @@ theorem hypot_step (ht : TableOK codes) {c : Int} (h0 : 0 ≤ downstreamCell cod
   unfold hypot stepLen isDiag
   rw [e1, e2, ex, ey]
   rcases hx with rfl | rfl | rfl <;> rcases hy with rfl | rfl | rfl <;> simp at hcen ⊢
-
-/-- cells of the river: the chain from the start, cut after the first cell that drains nowhere -/
-def chainCells (codes : List Int) (g : FlowGrid) : Nat → Int → List Int
-  | 0, _ => []
-  | n + 1, c => c :: (if downstreamCell codes g c < 0 then [] else chainCells codes g n (downstreamCell codes g c))
 
 theorem river_cells : ∀ (n : Nat) (cur : Int) (dist : α) (dx dy : Int),
     (riverLoop codes g n cur dist dx dy).map (·.cell) = chainCells codes g n cur := by
